@@ -89,7 +89,7 @@ var solvers = []solverSpec{
 		return []string{"z3-new", fmt.Sprintf("-T:%d", int(to.Seconds())+1), fmt.Sprintf("-t:%d", to.Milliseconds()), f}
 	}},
 	{"cvc5", func(f string, to time.Duration) []string {
-		return []string{"cvc5", "--dt-nested-rec", fmt.Sprintf("--tlimit=%d", to.Milliseconds()), f}
+		return []string{"cvc5", "--dt-nested-rec", "--strings-exp", fmt.Sprintf("--tlimit=%d", to.Milliseconds()), f}
 	}},
 	{"z3", func(f string, to time.Duration) []string {
 		return []string{"z3", fmt.Sprintf("-T:%d", int(to.Seconds())+1), fmt.Sprintf("-t:%d", to.Milliseconds()), f}
